@@ -19,6 +19,7 @@ CONSTANTS
   Switch <- NoSwitch
   Rewidth <- NoSwitch
   Charsets <- NoSwitch
+  MCSecPre <- NoSecPre
   Depth = 9
 VIEW HView
 PROPERTY PFrameShape
